@@ -2,8 +2,9 @@
    Statements only; proofs in Proofs/NpzProofs.v.  The model (Model/Npz.v) writes and reads the key strings listed in
    the GENERATED tables Gen/SitesC11.v (np.savez keywords / dicttosave stores; file[...] reads and `in file` tests of the
    three readers and of NPZFile.__init__), so the statements below are about the keys the source uses now.
-   Not modelled: the zip container (np.savez / np.load), pandas' to_dict / from_dict beyond "column -> {index label ->
-   cell}", float formatting of times (times are ns ticks).
+   Not modelled: the zip container (np.savez / np.load), pandas' to_dict / from_dict beyond "column -> Python dict
+   {index label -> cell}" (a repeated label keeps its first position and its last cell), float formatting of times
+   (times are ns ticks).
    PARTIAL: the TsGroup theorems assume NumPy's contract for np.argsort (visible premises: the result is a permutation
    of the positions, and it sorts); C11_argsort_contract_satisfiable shows the premises are consistent. *)
 From Coq Require Import String Sorting.Sorted Sorting.Permutation.
@@ -62,7 +63,11 @@ Theorem C11_roundtrip_tsdtensor : forall argsort x, WF_tensor x -> load (save ar
 Proof. exact roundtrip_tensor. Qed.
 Print Assumptions C11_roundtrip_tsdtensor.
 
-Theorem C11_roundtrip_tsdframe : forall argsort x, WF_frame x -> load (save argsort (OFrame x)) = Some (OFrame x).
+(* TsdFrame: the model of `_metadata.to_dict()` is a Python dict (one entry per DISTINCT index label), so the round trip
+   needs: no column label occurs twice, or the frame has no metadata column.  The remaining case is refuted below
+   (C11_tsdframe_duplicate_labels_refuted): the hypothesis cannot be dropped. *)
+Theorem C11_roundtrip_tsdframe : forall argsort x, WF_frame x -> unique_labels_or_no_meta x ->
+  load (save argsort (OFrame x)) = Some (OFrame x).
 Proof. exact roundtrip_frame. Qed.
 Print Assumptions C11_roundtrip_tsdframe.
 
@@ -120,6 +125,27 @@ Theorem C11_tsgroup_all_empty_tsd_refuted :
   /\ load (save stable_argsort (OGroup empty_tsd_group)) <> Some (OGroup empty_tsd_group).
 Proof. exact tsgroup_all_empty_tsd_refuted. Qed.
 Print Assumptions C11_tsgroup_all_empty_tsd_refuted.
+
+(* a TsdFrame whose column labels repeat and which carries a metadata column cannot be loaded back: the saved dict has
+   one entry per distinct label and set_info rejects the shorter index (the implementation raises ValueError) *)
+Theorem C11_tsdframe_duplicate_labels_refuted :
+  WF_frame dup_label_frame
+  /\ to_dict (f_cols dup_label_frame) (f_meta dup_label_frame) = [("m", [(LStr "a", MInt 2)])]
+  /\ forall argsort, load (save argsort (OFrame dup_label_frame)) = None.
+Proof. exact frame_duplicate_labels_refuted. Qed.
+Print Assumptions C11_tsdframe_duplicate_labels_refuted.
+
+(* "for every Ts, Tsd, ..." is false for the series the constructors build with an EMPTY default support around
+   coinciding timestamps (nap.Ts([5.]), nap.Tsd([3.,3.,3.], ...)): they meet every invariant of WF_series except
+   `in_sup`, and load (save x) has no sample left.  So `in_sup` in WF_ts / WF_tsd / WF_tensor / WF_frame is needed. *)
+Theorem C11_zero_span_default_support_refuted :
+  (sortedZ (ts_t zero_span_ts) /\ canonical (ts_sup zero_span_ts) /\ ts_t zero_span_ts <> []
+   /\ forall argsort, load (save argsort (OTs zero_span_ts)) = Some (OTs {| ts_t := []; ts_sup := [] |}))
+  /\ (sortedZ (d_t zero_span_tsd) /\ canonical (d_sup zero_span_tsd) /\ length (d_v zero_span_tsd) = length (d_t zero_span_tsd)
+      /\ forall argsort, load (save argsort (OTsd zero_span_tsd))
+                         = Some (OTsd {| d_t := []; d_v := []; d_shape := []; d_dt := DFloat; d_sup := [] |})).
+Proof. exact zero_span_default_support_refuted. Qed.
+Print Assumptions C11_zero_span_default_support_refuted.
 
 (* non-vacuity: a concrete group of Tsd with unsorted-looking keys 2 < 5 < 30, an empty member, a two-interval support
    and numeric + string metadata meets the hypotheses and round-trips; a frame with string labels too *)
